@@ -181,26 +181,65 @@ _tw = {}
 
 
 def _arm_tripwires(k):
-    """Real blocking calls issued from a simulated thread are harness errors."""
+    """Real blocking calls issued from a simulated thread are harness errors.
+
+    A leaked real sleep / thread / event wait / queue get would make results depend on the
+    host's scheduler; the trip-wires turn such a leak into an abort with reason
+    'tripwire:<what>' (reported as HARNESS-ERROR, never as a result)."""
     if _tw:
         _tw["k"] = k
         return
     _tw["k"] = k
+
+    tl = _th.local()
+
+    def leaked(what):
+        kk = _tw.get("k")
+        if kk is None or kk.aborting or getattr(tl, "allow", 0):
+            return False
+        if kk.by_ident.get(_th.get_ident()) is None:
+            return False
+        kk.ev("TRIPWIRE", what)
+        kk.abort("tripwire:" + what)
+        return True
+
     real_sleep = _time.sleep
+    real_start = _th.Thread.start
+    real_wait = _th.Event.wait
+    real_get = _queue.Queue.get
 
     def sleep(d):
-        kk = _tw.get("k")
-        if kk is not None and kk.by_ident.get(_th.get_ident()) is not None and not kk.aborting:
-            kk.ev("TRIPWIRE", "time.sleep")
-            kk.abort("tripwire:time.sleep")
+        if leaked("time.sleep"):
             raise HarnessError("real time.sleep called from a simulated thread")
         return real_sleep(d)
 
-    _tw["sleep"] = real_sleep
+    def start(self):
+        if not self.name.startswith("sim:") and leaked("Thread.start"):
+            raise HarnessError("real threading.Thread started from a simulated thread")
+        tl.allow = getattr(tl, "allow", 0) + 1     # Thread.start() itself waits on an Event
+        try:
+            return real_start(self)
+        finally:
+            tl.allow -= 1
+
+    def wait(self, timeout=None):
+        if leaked("Event.wait"):
+            raise HarnessError("real threading.Event.wait called from a simulated thread")
+        return real_wait(self, timeout)
+
+    def get(self, block=True, timeout=None):
+        if block and leaked("Queue.get"):
+            raise HarnessError("real blocking queue.Queue.get called from a simulated thread")
+        return real_get(self, block, timeout)
+
+    _tw["orig"] = (real_sleep, real_start, real_wait, real_get)
     _time.sleep = sleep
+    _th.Thread.start = start
+    _th.Event.wait = wait
+    _queue.Queue.get = get
 
 
 def _disarm_tripwires():
-    if "sleep" in _tw:
-        _time.sleep = _tw["sleep"]
+    if "orig" in _tw:
+        _time.sleep, _th.Thread.start, _th.Event.wait, _queue.Queue.get = _tw["orig"]
     _tw.clear()
